@@ -210,6 +210,12 @@ class Engine:
         k = e.get('kind')
         if k == 'CXXBoolLiteralExpr':
             return bool(e.get('value'))
+        if k == 'CXXMemberCallExpr' and tu.sd(e).get('q', '').split('::')[-1] == 'empty' and 'basic_string' in tu.sd(e).get('q', ''):
+            obj = tu.call_parts(e)[1]
+            d = tu.ref_decl(obj) if obj is not None else None
+            if d is not None and ('s', d) in st:
+                return st[('s', d)] == 'S0'
+            return None
         if k == 'UnaryOperator' and e.get('opcode') == '!':
             v = self.ev(tu.kids(e)[0], st, depth + 1)
             return None if v is None else (not v)
@@ -223,6 +229,24 @@ class Engine:
             if a is True or b is True:
                 return True
             return False if (a is False and b is False) else None
+        if k == 'BinaryOperator' and e.get('opcode') in ('==', '!=', '<', '>', '<=', '>='):
+            ks = tu.kids(e)
+            a_, _ = self.decl_of(ks[0])
+            b_, _ = self.decl_of(ks[1])
+            if a_ is not None and b_ is not None and a_ != b_ and ('c', a_) in st and ('c', b_) in st:
+                op = e['opcode']
+                lt_ab, lt_ba = ('lt', a_, b_) in st, ('lt', b_, a_) in st
+                le_ab, le_ba = lt_ab or ('le', a_, b_) in st, lt_ba or ('le', b_, a_) in st
+                if op in ('==', '!=') and (lt_ab or lt_ba):
+                    return op == '!='
+                if op == '<' and (lt_ab or le_ba):
+                    return lt_ab
+                if op == '>' and (lt_ba or le_ab):
+                    return lt_ba
+                if op == '<=' and (le_ab or lt_ba):
+                    return le_ab
+                if op == '>=' and (le_ba or lt_ab):
+                    return le_ba
         if k == 'BinaryOperator' and e.get('opcode') in ('==', '!='):
             ks = tu.kids(e)
             for L, R in ((ks[0], ks[1]), (ks[1], ks[0])):
@@ -388,6 +412,48 @@ class Engine:
                          'search and this use, so a file without the searched text makes the parser dereference null (a crash, not a '
                          'std::runtime_error)' % (what, nm, st[('null', v)]), node)
             st.pop(('null', v), None)          # report once per path
+
+    def str_class(self, e, st, depth=0):
+        """'S0' (empty) / 'S1' (non-empty) / None for a std::string-valued expression: an empty literal or default-constructed string,
+        a string variable whose class is known, or a string built from a cursor range [a, b) (non-empty when a < b is known; the
+        builders of this file - makeString, the range constructor - return exactly the bytes of the range)"""
+        tu = self.tu
+        e = tu.strip(e, casts=True)
+        for _ in range(8):
+            if e is not None and e.get('kind') in ('ExprWithCleanups', 'MaterializeTemporaryExpr', 'CXXBindTemporaryExpr', 'CXXFunctionalCastExpr') and tu.kids(e):
+                e = tu.strip(tu.kids(e)[-1], casts=True)
+            else:
+                break
+        if e is None or depth > 4:
+            return None
+        k = e.get('kind')
+        if k == 'StringLiteral':
+            return 'S0' if self.strlen(e) == 0 else 'S1'
+        if k == 'DeclRefExpr':
+            d = tu.ref_decl(e)
+            return st.get(('s', d))
+        vals = self.vals(st)
+        if e.get('id') in vals and vals[e['id']] in ('S0', 'S1'):
+            return vals[e['id']]
+        if k in ('CXXConstructExpr', 'CXXTemporaryObjectExpr'):
+            args = [a for a in tu.kids(e) if a.get('kind') != 'CXXDefaultArgExpr']
+            if not args:
+                return 'S0'
+            if len(args) == 1:
+                return self.str_class(args[0], st, depth + 1)
+        else:
+            args = tu.call_parts(e)[2] if k == 'CallExpr' else []
+        if k in ('CXXConstructExpr', 'CXXTemporaryObjectExpr', 'CallExpr') and len(args) == 2:
+            a, _ = self.decl_of(args[0])
+            b, _ = self.decl_of(args[1])
+            if a is not None and b is not None and ('c', a) in st and ('c', b) in st:
+                if a == b:
+                    return 'S0'
+                if ('lt', a, b) in st:
+                    return 'S1'
+        if k == 'CallExpr' and tu.sd(e).get('q') == 'std::move' and len(tu.kids(e)) == 2:
+            return self.str_class(tu.kids(e)[1], st, depth + 1)
+        return None
 
     def nul_true_note(self, f):
         """names the character predicates called in f that are true for the NUL byte (they cannot justify an advance)"""
@@ -613,6 +679,8 @@ class Engine:
             del st[k]
         for k in strict:
             del st[k]
+        for k in [k for k in st if isinstance(k, tuple) and k[0] == 'le' and k[2] == v and k[1] != v]:
+            st[('lt', k[1], v)] = 1            # x <= v and v moved forward: x < v
         st.pop(('len', v), None)
 
     @staticmethod
@@ -715,6 +783,13 @@ class Engine:
             if k == 'ReturnStmt':
                 ks = tu.kids(n)
                 st['$ret'] = eng.ev(ks[0], st) if ks else None
+                if ks and st['$ret'] is None and ('basic_string' in f.get('fty', '') or f.get('fty', '').startswith('std::string')):
+                    st['$ret'] = eng.str_class(ks[0], st)
+                if ks and not f.get('fty', '').startswith('bool') and not f.get('fty', '').startswith('std::'):
+                    c_ = eng.const_of(ks[0])
+                    rt_ = f.get('fty', '').split('(')[0].strip()
+                    if c_ is not None and not rt_.endswith('*') and not rt_.endswith('&'):
+                        st['$ret'] = ('E', c_)        # a constant (enumerator) returned by a classifier such as peekItem()
                 return [fz(st)]
             if k in ('UnaryOperator', 'ArraySubscriptExpr'):
                 op = n.get('opcode')
@@ -887,6 +962,22 @@ class Engine:
                     elif kind == 'chr':
                         eng.names[vd['id']] = vd.get('name', '?')
                         st[('h', vd['id'])] = eng.char_class_of(init, st) if init is not None else '?'
+                    elif 'basic_string' in ct:
+                        cls = None
+                        if init is None:
+                            cls = 'S0'
+                        else:
+                            cls = eng.str_class(init, st)
+                            if cls is None:
+                                vals_ = eng.vals(st)
+                                for x_ in tu.walk(init):
+                                    if x_.get('id') in vals_ and vals_[x_['id']] in ('S0', 'S1'):
+                                        cls = vals_[x_['id']]
+                                        break
+                        if cls is not None:
+                            st[('s', vd['id'])] = cls
+                        else:
+                            st.pop(('s', vd['id']), None)
                     elif init is not None and re.match(r'^(const )?(unsigned |signed )?(size_t|int|long|unsigned long|unsigned int|std::size_t|ssize_t|unsigned)( int)?$', ct.strip()):
                         i0 = tu.strip(init, casts=True)
                         val = None
@@ -901,10 +992,40 @@ class Engine:
                 return eng.do_call(f, n, st, moved)
             return [s]
 
+        def switch_labels(blk):
+            """[(succ index, case constant | 'default')] if the block ends in a switch whose case labels are constants, else None"""
+            res = []
+            anycase = False
+            for i_, x_ in enumerate(blk.succ):
+                if x_ is None:
+                    continue
+                lab = tu.node(g.blocks[x_].label) if g.blocks[x_].label else None
+                if lab is not None and lab.get('kind') == 'CaseStmt' and tu.kids(lab):
+                    c_ = eng.const_of(tu.kids(lab)[0])
+                    if c_ is None:
+                        return None
+                    res.append((i_, c_))
+                    anycase = True
+                else:
+                    res.append((i_, 'default'))
+            return res if anycase else None
+
         def refine(blk, si, s):
             succ = blk.succ[si]
             outs = [s]
-            if blk.cond is not None and len(blk.succ) == 2:
+            sw = switch_labels(blk) if blk.cond is not None else None
+            if sw is not None:
+                c0 = tu.strip(tu.node(blk.cond), casts=True)
+                v_ = eng.vals(dict(s)).get(c0['id']) if c0 is not None else None
+                if isinstance(v_, tuple) and v_ and v_[0] == 'E':
+                    mine = dict(sw).get(si)
+                    consts = [c_ for _, c_ in sw if c_ != 'default']
+                    if (mine == 'default' and v_[1] in consts) or (mine != 'default' and mine != v_[1]):
+                        return []
+                st_ = dict(s)
+                st_['$vals'] = ()
+                outs = [fz(st_)]
+            elif blk.cond is not None and len(blk.succ) == 2:
                 c = tu.node(blk.cond)
                 if c is not None:
                     t = (si == 0)
@@ -1071,6 +1192,8 @@ class Engine:
             for p2, v2 in argvar.items():
                 if p1 != p2 and (v1 == v2 or ('le', v1, v2) in st):
                     entry[('le', p1, p2)] = 1
+                if p1 != p2 and ('lt', v1, v2) in st:
+                    entry[('lt', p1, p2)] = 1
         outs = self.summ(cf, fz(entry))
         res = []
         for (ex, ret, adv) in outs:
@@ -1090,7 +1213,7 @@ class Engine:
                         del s2[k_]        # moved backward by an unknown number of bytes
             if adv:
                 moved(s2)
-            if isinstance(ret, bool):
+            if isinstance(ret, bool) or ret in ('S0', 'S1') or (isinstance(ret, tuple) and ret and ret[0] == 'E'):
                 vals = self.vals(s2)
                 vals[n['id']] = ret
                 s2['$vals'] = fz(vals)
